@@ -602,13 +602,21 @@ class TIMachine(FormatMachine):
         if s.tainted:
             return
         m = s.model
-        if self.validity(s)[0] != VALID:
+        if self.validity(s)[0] != VALID or not (self.watching("C04") or self.watching("C17")):
             return
         try:
             doc = inimod.as_dict(text)
         except inimod.IniError as e:
+            if not self.watching("C04"):
+                return
             raise Violation("C04", "C04.file_readable_by_independent_ini_reader", "independent-reader-fails", {"error": str(e)[:120]})
         exp = expected_from_model(m)
+        if self.watching("C04"):
+            self._independent_reader_check(doc, exp)
+        if self.watching("C17"):
+            self._general_check(doc, exp, m, op)
+
+    def _independent_reader_check(self, doc, exp):
         # C04: what an independent reader sees in the authoritative sections (catches symmetric writer/reader errors)
         self.count("C04", ["independent", self.abstract_expected(exp)])
         rel = doc.get("release", {})
@@ -635,6 +643,8 @@ class TIMachine(FormatMachine):
             for k, val in v["paths"].items():
                 if sec.get(k) != val:
                     raise Violation("C04", "C04.independent_reader_sees_written_facts", "independent/variant-path", {"section": secname, "kind": k})
+
+    def _general_check(self, doc, exp, m, op):
         # C17
         g = doc.get("general")
         top = [m["vars"][v] for v in m["top"]]
@@ -970,7 +980,7 @@ class DIMachine(FormatMachine):
         return "ok"
 
     def file_invariants(self, s, text, op):
-        if s.tainted or self.validity(s)[0] != VALID:
+        if s.tainted or self.validity(s)[0] != VALID or not self.watching("C04"):
             return
         lines = text.split("\n")
         m = s.model
